@@ -2,6 +2,7 @@ package props
 
 import (
 	"fmt"
+	"sort"
 	"strings"
 	"sync"
 	"time"
@@ -85,6 +86,12 @@ func C10(p *core.Program, r *core.Report) {
 		effs := a.EntryEffects(fn, bind)
 		viol := 0
 		seen := map[string]bool{}
+		type cand struct {
+			key string
+			ef  *pea.Effect
+			n   int
+		}
+		var cands []cand
 		for _, ef := range effs {
 			nEff++
 			li := a.Label(ef.Target)
@@ -96,9 +103,21 @@ func C10(p *core.Program, r *core.Report) {
 				continue
 			}
 			seen[key] = true
+			cands = append(cands, cand{key, ef, len(a.Chain(ef))})
+		}
+		// local before global, short paths before long
+		sort.SliceStable(cands, func(i, j int) bool { return cands[i].n < cands[j].n })
+		for i, c := range cands {
 			viol++
-			r.Add("M1", key, p.Pos(ef.Pos), false,
-				fmt.Sprintf("%s may write %s of the caller's %s", core.ShortKey(ef.Fn), ef.Field, li.Name), a.Chain(ef)...)
+			if i >= 8 {
+				continue
+			}
+			li := a.Label(c.ef.Target)
+			r.Add("M1", c.key, p.Pos(c.ef.Pos), false,
+				fmt.Sprintf("%s may write %s of the caller's %s", core.ShortKey(c.ef.Fn), c.ef.Field, li.Name), a.Chain(c.ef)...)
+		}
+		if viol > 8 {
+			r.Add("M1", fmt.Sprintf("%s: further writers of caller-owned memory", e.name), "", false, fmt.Sprintf("%d more (target, writer, field) combinations with longer call chains omitted", viol-8))
 		}
 		if viol == 0 {
 			r.Add("M1", e.name+": no effect on caller-owned memory", p.Pos(fn.Pos()), true,
